@@ -166,37 +166,15 @@ func c17LcFirst(s string) string {
 // C17Quirks names constructs that trigger KNOWN gqlgen defects (open findings of
 // C17).  They are left out of the enumerated space - otherwise every row that
 // contains one would fail for the known reason and test nothing else - and are
-// probed by one additional point each (see C17QuirkApplies).
+// probed by one small row each (KnownDefect / ProbeNeeds in spec/ProjectCover.tla).
+// Keys: nestedNullMix dirArgPredeclared funcSyntaxGoEnum stubKeywordType argNamedPanic
+// autobindIntrospection valueStructCycle3.
 type C17Quirks map[string]bool
-
-// C17QuirkNames lists the quirks in a fixed order.
-var C17QuirkNames = []string{"nestedNullMix", "dirArgPredeclared", "funcSyntaxGoEnum", "stubKeywordType",
-	"argNamedPanic", "autobindIntrospection", "valueStructCycle3"}
-
-// C17QuirkApplies says whether the row has the factors the quirk needs.
-func C17QuirkApplies(q string, r C17Row) bool {
-	switch q {
-	case "nestedNullMix":
-		return r.B("lists") && !r.B("omit_slice_element_pointers")
-	case "dirArgPredeclared":
-		return r.B("dirType") && r.B("idKeyword")
-	case "funcSyntaxGoEnum":
-		return r.B("builtinDir") && r.B("enum") && r.B("use_function_syntax_for_execution_context")
-	case "stubKeywordType":
-		return r.B("stub") && r.B("idKeyword")
-	case "argNamedPanic":
-		return r.B("idKeyword") && r.S("resolver") != "none"
-	case "autobindIntrospection":
-		return r.B("idKeyword") && r.S("models") == "bound"
-	case "valueStructCycle3":
-		return !r.B("struct_fields_always_pointers")
-	}
-	return false
-}
 
 // c17BuildSchema builds the schema of a row.  It also returns what the config
 // renderer needs: models bindings and which hand-written Go files are needed.
-func c17BuildSchema(row C17Row, seed int64, base string, quirks C17Quirks) *c17Builder {
+func c17BuildSchema(row C17Row, seed int64, base string) *c17Builder {
+	quirks := row.Quirks()
 	b := &c17Builder{row: row, seed: seed, quirk: quirks, rng: rand.New(rand.NewSource(seed)), base: base,
 		s:        &c17Schema{byName: map[string]*c17Type{}},
 		needHand: map[string]bool{}, models: map[string]string{}, resolverFields: map[string][]string{}}
@@ -374,6 +352,12 @@ func (b *c17Builder) interfaces() {
 		// an interface field with arguments and an interface-typed interface field
 		i0.add(&c17Field{Name: "describe", Type: "String", Args: []*c17Arg{{Name: "upper", Type: "Boolean"}}})
 		i0.add(&c17Field{Name: "peer", Type: i0.Name})
+		if b.row.B("lists") {
+			// list-typed interface fields (slice getters of the generated models)
+			i0.add(&c17Field{Name: "relatedNodes", Type: "[" + i0.Name + "!]"})
+			i0.add(&c17Field{Name: "aliases", Type: "[String!]"})
+			i0.add(&c17Field{Name: "siblings", Type: "[" + b.obj(0).Name + "]"})
+		}
 	}
 	impl(b.obj(0), i0)
 	impl(b.obj(1), i0)
@@ -874,6 +858,8 @@ func (b *c17Builder) builtinDirs() {
 		in.add(&c17Field{Name: "optionalInt", Type: "Int", Dirs: []string{"@goField(omittable: true)", `@goTag(key: "validate", value: "min=1")`}})
 		in.add(&c17Field{Name: "notOptional", Type: "Int", Dirs: []string{"@goField(omittable: false)"}})
 		in.add(&c17Field{Name: "inRenamed", Type: "Boolean", Dirs: []string{`@goField(name: "InOther")`}})
+		// input field resolver
+		in.add(&c17Field{Name: "resolvedIn", Type: "String", Dirs: []string{"@goField(forceResolver: true)"}})
 		in2 := b.s.byName[b.input2]
 		in2.add(&c17Field{Name: "optionalRange", Type: b.input, Dirs: []string{"@goField(omittable: true)"}})
 		in2.add(&c17Field{Name: "optionalList", Type: "[Int!]", Dirs: []string{"@goField(omittable: true)"}})
@@ -1012,6 +998,8 @@ func (b *c17Builder) dirType() {
 	if b.row.B("idKeyword") {
 		if b.quirk["dirArgPredeclared"] {
 			fd = append([]string{`@kwArgs(type: "t", func: 1, range: [1, 2], string: true)`}, fd...)
+			o1.add(&c17Field{Name: "shadowed", Type: "String", Dirs: []string{`@kwArgs(string: true)`}})
+			b.query.add(&c17Field{Name: "shadowedRoot", Type: "String!", Dirs: []string{`@kwArgs(type: "x", string: false)`}})
 		} else {
 			fd = append(fd, `@kwArgs(type: "t", func: 1, range: [1, 2], select: true)`)
 		}
